@@ -8,6 +8,7 @@ import GsModel.Params.Bind
 import GsModel.Pair.Encode
 import GsModel.Doc.Lines
 import GsModel.Scan.GoTypes
+import GsModel.Scan.Indent
 import GsModel.Schema.Valid
 /-
   Model driver: one JSON request per line on stdin, one JSON response per line on stdout.
@@ -243,6 +244,14 @@ partial def shapeOfTy (strAll : Bool) (j : Json) : Json :=
 def handleScanSchema (j : Json) : Json :=
   Json.mkObj [("r", Json.str "ok"), ("schema", shapeOfTy (Diff.J.bool j "strAll") ((j.getObjVal? "ty").toOption.getD .null))]
 
+/-- {"op":"scan.removeIndent","lines":[s..]} → {"lines":[s..]} | {"panic":why} -/
+def handleRemoveIndent (j : Json) : Json :=
+  let ls := (Diff.J.strs j "lines").map String.toList
+  match Scan.removeIndent ls with
+  | .ok r => Json.mkObj [("r", Json.str "ok"), ("lines", Json.arr (r.map (fun l => Json.str (String.ofList l))).toArray)]
+  | .panic w => Json.mkObj [("r", Json.str "ok"), ("panic", Json.str w)]
+  | .fuel => Json.mkObj [("r", Json.str "fuel")]
+
 partial def toJ (j : Json) : Schema.J :=
   match j with
   | .null => .null
@@ -296,6 +305,7 @@ def handle (line : String) : Json :=
     | "ops.gather" => handleGather j
     | "sec.serve" => handleSec j
     | "param.bind" => handleBind j
+    | "scan.removeIndent" => handleRemoveIndent j
     | "scan.schema" => handleScanSchema j
     | "doc.roundtrip" => handleDoc j
     | "pair.roundtrip" => handlePair j
